@@ -48,6 +48,25 @@ theorem tie_truediv (i : I) (k : Rat) : Gen.Interval_truediv i k = div i k := by
     · simp only [gt_iff_lt, h, decide_false, Bool.false_eq_true, if_false, h0, CR.Py.div]; unfold mk
       split <;> simp_all [bind, Except.bind, pure, Except.pure]
 
+/-- The constructor, translated with its two property setters on a partially initialised object
+    (`_start`, `_end` are `None` first): it is exactly the model's `mk` — in particular the guards test
+    `is not None`, not truthiness, so a stored bound of 0 is checked like any other. -/
+theorem tie_init (a b : Rat) :
+    Gen.Interval_init a b = (mk a b).map (fun i => (some i.lo, some i.hi)) := by
+  unfold Gen.Interval_init Gen.Interval_set_start Gen.Interval_set_end mk
+  by_cases h : a ≤ b
+  · simp [h, bind, Except.bind, pure, Except.pure, Except.map, CR.Py.assert, ge_iff_le]
+  · simp [h, bind, Except.bind, pure, Except.pure, Except.map, CR.Py.assert, ge_iff_le]
+
+/-- The setters on a fully constructed interval are the model's `setStart` / `setEnd`. -/
+theorem tie_setters (i : I) (x : Rat) :
+    Gen.Interval_set_start (some i.lo, some i.hi) x = (setStart i x).map (fun j => (some j.lo, some j.hi)) ∧
+    Gen.Interval_set_end (some i.lo, some i.hi) x = (setEnd i x).map (fun j => (some j.lo, some j.hi)) := by
+  unfold Gen.Interval_set_start Gen.Interval_set_end setStart setEnd
+  constructor
+  · by_cases h : x ≤ i.hi <;> simp [h, bind, Except.bind, pure, Except.pure, Except.map, CR.Py.assert]
+  · by_cases h : i.lo ≤ x <;> simp [h, bind, Except.bind, pure, Except.pure, Except.map, CR.Py.assert, ge_iff_le]
+
 theorem tie_length (i : I) : Gen.Interval_length i = length i := rfl
 
 theorem tie_order (i j : I) (x : Rat) :
